@@ -198,7 +198,7 @@ theorem housekeep_keptC (env : CryptoEnv) (o : Oracle) (n : Node) (now : Int) : 
   simp only []
   -- the last step: reset of the own addresses
   have hown : ∀ c5 : Ctx, KeptC (alive n now) c5 →
-      KeptC (alive n now) (if c5.node.nextOwnReset ≤ now then
+      KeptC (alive n now) (if Generated.ownResetDue c5.node.nextOwnReset now then
         { c5 with node := { c5.node with own := c5.node.cfg.advertise ++ [c5.node.addr], nextOwnReset := now + 300 } } else c5) := by
     intro c5 h5
     split
@@ -209,7 +209,7 @@ theorem housekeep_keptC (env : CryptoEnv) (o : Oracle) (n : Node) (now : Int) : 
   rw [reconnectToPeers_peers]
   -- announcement
   have hann : ∀ c3 : Ctx, KeptC (alive n now) c3 →
-      KeptC (alive n now) (if c3.node.nextPeers ≤ now then
+      KeptC (alive n now) (if Generated.announceDue c3.node.nextPeers now then
         match announceInterval (broadcastMsg o c3 Generated.MESSAGE_TYPE_NODE_INFO (Codec.encodeNodeInfo (createNodeInfo c3.node))).node.cfg.updateFreq
             (((broadcastMsg o c3 Generated.MESSAGE_TYPE_NODE_INFO (Codec.encodeNodeInfo (createNodeInfo c3.node))).node.peers.map (fun (_, p) => p.peerTimeout)).foldl min
               (if (broadcastMsg o c3 Generated.MESSAGE_TYPE_NODE_INFO (Codec.encodeNodeInfo (createNodeInfo c3.node))).node.peers.isEmpty then Generated.DEFAULT_PEER_TIMEOUT else 65535)) with
